@@ -348,18 +348,20 @@ func (s *state) visitPrint(node *ast.PrintNode) {
 			}
 		}
 	}
+	// Directives apply in source order, and autoescaping applies to their
+	// result (as in the Go backend): the first directive is the innermost call.
 	if escape != ast.AutoescapeOff {
-		directives = append([]*ast.PrintDirectiveNode{{0, "escapeHtml", nil}}, directives...)
+		directives = append(directives, &ast.PrintDirectiveNode{0, "escapeHtml", nil})
 	}
 
 	s.indent()
 	s.js(s.bufferName, " += ")
-	for _, dir := range directives {
+	for i := range directives {
+		var dir = directives[len(directives)-1-i]
 		s.js(PrintDirectives[dir.Name].Name, "(")
 	}
 	s.walk(node.Arg)
-	for i := range directives {
-		var dir = directives[len(directives)-1-i]
+	for _, dir := range directives {
 		for _, arg := range dir.Args {
 			s.js(",")
 			s.walk(arg)
